@@ -19,7 +19,8 @@ Read line by line from the code at /repo HEAD. One event = one atomic action of 
   Callbacks made *inside* the final section (scripted `BackOff`, exit callbacks) log one line each: the section
   leaves them in `lockq` and `emit` pops them; while `lockq` is non-empty the container lock is held.
 * retry timers: `fire` (the runtime starts the `AfterFunc` goroutine) and `timerCS` (its critical section);
-  `Stop()` only prevents `fire`.
+  `Stop()` only prevents `fire`; a callback that runs after its timer was stopped or replaced finds
+  `r.deferRetry != retryTimer` and does nothing.
 * `env cancel c` announces the cancellation of root context `c` (logged before the call), `envDo c` performs it; `env cancelw a` cancels the context handed to `WaitExited` call `a`.
 
 Numbers: root contexts are `1,2,…` (`0` = nil context), function tags `1,2,…` (`0` = nil routine), state
@@ -158,6 +159,7 @@ structure St where
   croots : List Nat := []          -- cancelled root contexts
   pcancel : List Nat := []         -- root contexts whose cancellation has been announced (logged) but not yet performed
   routine : Option Nat := none
+  cleared : Option Nat := none     -- `k.clearedExitedCh`: exit channel of the routine removed by SetRoutine(nil)
   recs : List Rec := []
   insts : List Inst := []
   timers : List Timer := []
@@ -250,19 +252,20 @@ holds exactly that channel (Core/Bcast: one channel per generation), so closing 
 woken; a waiter that samples later gets a fresh channel (`parked false`). -/
 def St.bcastNow (s : St) : St := { s with calls := s.calls.map Call.wakeUp }
 
-/-- first half of `setRoutineLocked` (routine.go:158-173): detach the previous record -/
+/-- first half of `setRoutineLocked` (routine.go:167-180): detach the previous record, or pick up the exit channel
+of a routine that was cleared earlier; `clearedExitedCh` is reset -/
 def detachPrev (s : St) : St × Option Nat × Bool :=
   match s.routine with
-  | none => (s, none, false)
+  | none => ({ s with cleared := none }, s.cleared, false)
   | some p =>
     match s.recs[p]? with
-    | none => ({ s with routine := none }, none, false)   -- unreachable: `routine` always points into `recs`
+    | none => ({ s with routine := none, cleared := none }, none, false)   -- unreachable: `routine` always points into `recs`
     | some pr =>
       let sc := cancelOpt s pr.cancelOf
-      ({ sc with recs := sc.recs.set p { pr with cancelOf := none }, routine := none },
+      ({ sc with recs := sc.recs.set p { pr with cancelOf := none }, routine := none, cleared := none },
        pr.exitedCh, s.ctx != 0 && !pr.exited)
 
-/-- `setRoutineLocked(routine)` (routine.go:157-190); `f = 0` is the nil routine. Returns the new state,
+/-- `setRoutineLocked(routine)` (routine.go:162-200); `f = 0` is the nil routine. Returns the new state,
 the instance whose exit channel is returned, and `wasReset`. -/
 def setRoutineLocked (s0 : St) (f arg : Nat) : St × Option Nat × Bool :=
   let d := detachPrev (normCtx s0)
@@ -277,10 +280,12 @@ def setRoutineLocked (s0 : St) (f arg : Nat) : St × Option Nat × Bool :=
     else
       let s2 : St := { s1 with recs := s1.recs ++ [{ fn := f, arg := arg, exitedCh := pch }], routine := some r }
       (s2.bcastNow, pch, wasReset)
-  else if wasReset then (s1.bcastNow, pch, wasReset)
-  else (s1, pch, wasReset)
+  else
+    -- the container keeps the exit channel of the routine it removes until the next routine is set
+    let s2 : St := { s1 with cleared := pch }
+    if wasReset then (s2.bcastNow, pch, wasReset) else (s2, pch, wasReset)
 
-/-- `SetContext(ctx, restart)` (routine.go:103-128) -/
+/-- `SetContext(ctx, restart)` (routine.go:106-137) -/
 def setContextCS (s : St) (c : Nat) (restart : Bool) : St × Bool :=
   let same := s.ctx == c
   if same && !restart then (s, false)
@@ -293,6 +298,8 @@ def setContextCS (s : St) (c : Nat) (restart : Bool) : St × Bool :=
       | none => (s1, false)
       | some rr =>
         if same && rr.err.isNone then (s1, false)
+        -- the routine failed and is waiting to be retried: keep the pending retry, it will use the new context
+        else if rr.err.isSome && !restart && c != 0 && rr.retry.isSome then (s1, false)
         else
           let s2 := stopRec s1 r
           let s3 := if (rr.err.isNone || restart) && c != 0 then startRec s2 r c rr.exitedCh false else s2
@@ -423,10 +430,14 @@ def recordCS (s : St) (cf : Cfg) (n : Nat) (x : Inst) (dur : Bool) : Option St :
                      lockq := boLines cf succ isCur dur ++ cbLines cf x.out }.bcastNow
     else if dur then none else some s1
 
-/-- the retry timer's critical section (routine.go:335-340) -/
-def timerBody (s : St) (r : Nat) : St :=
+/-- the critical section of retry timer `t` of record `r` (routine.go:352-360): it acts only if it is still the
+record's pending retry timer -/
+def timerBody (s : St) (t r : Nat) : St :=
   let s1 := match s.recs[r]? with
-    | some x => if s.ctx != 0 && s.routine == some r && x.exited then startRec s r s.ctx x.exitedCh true else s
+    | some x =>
+      if x.retry == some t && s.ctx != 0 && s.routine == some r && x.exited then
+        startRec { s with recs := s.recs.set r { x with retry := none } } r s.ctx x.exitedCh true
+      else s
     | none => s
   s1.bcastNow
 
@@ -544,7 +555,7 @@ def stepI (s : St) : Ev → Option St
     match s.timers[t]? with
     | some tm =>
       if tm.st = .fired ∧ s.lockq = [] then
-        some (timerBody { s with timers := s.timers.set t { tm with st := .dead } } tm.rid)
+        some (timerBody { s with timers := s.timers.set t { tm with st := .dead } } t tm.rid)
       else none
     | none => none
   | .probeCtx k b =>
